@@ -5,8 +5,8 @@
    Ratchet.v, Baseline.v (apply_baseline_comparison, update_baseline_from_results, check_step =
    runner.rs:330-392, histories), FailFast.v. The model is that of the tree WITH the repairs
    fixes/D09, D10, D12, D30, D08 (and D11 for the ratchet): keys are path_key of the result path
-   ([norm_key]: backslash to slash, every leading dot-slash stripped, empty and dot spelled dot;
-   idempotent, Proofs_Check.norm_key_idem) and a loaded baseline is re-keyed ([rekey], [view]).
+   ([norm_key]: backslash to slash, rebuilt from its components without the dot components, empty
+   spelled dot; idempotent on every string, Proofs_Check.norm_key_idem) and a loaded baseline is re-keyed ([rekey], [view]).
    Before the repairs C09_update_idempotent,
    C09_modes_preserve_other_kind, C09_new_never_drops (without --baseline) and
    C09_unrecorded_always_fails (under fail-fast) were refuted by the faithful model and by the
@@ -109,13 +109,16 @@ Theorem C09_history_inv :
 Proof. exact history_inv. Qed.
 Print Assumptions C09_history_inv.
 
-(* spelling independence of the key (fix D08): a path, the same path behind "./" and behind
-   ".\" have one key, for every path; and the key function is idempotent, so keys stay fixed
-   however often the code normalises them *)
+(* spelling independence of the key (fixes D08, D39): the key function is idempotent on every
+   string, so keys stay fixed however often the code normalises them; and a relative path, the
+   same path behind "./" and behind ".\" have one key (for an absolute path the prefix makes it
+   relative, so the hypothesis is needed). Repeated and trailing separators and interior "/./"
+   are covered by the examples below and, in general, by SG.Paths (C08). *)
 Theorem C09_key_spelling_invariant :
   forall p,
-  norm_key (46 :: 47 :: p) = norm_key p /\ norm_key (46 :: 92 :: p) = norm_key p /\
-  norm_key (norm_key p) = norm_key p.
+  norm_key (norm_key p) = norm_key p /\
+  (SG.Paths.Model.is_abs (SG.Paths.Model.unbackslash p) = false ->
+   norm_key (46 :: 47 :: p) = norm_key p /\ norm_key (46 :: 92 :: p) = norm_key p).
 Proof. exact key_spelling_invariant. Qed.
 Print Assumptions C09_key_spelling_invariant.
 
@@ -169,9 +172,12 @@ Example C09_key_spelling_nonvacuous :
 Proof. vm_compute. split; [reflexivity | discriminate]. Qed.
 Print Assumptions C09_key_spelling_nonvacuous.
 
-(* doubled and mixed prefixes: one key *)
-Example C09_key_doubled_prefix :
+(* doubled and mixed prefixes, repeated / trailing separators, interior dot components: one key;
+   the root directory marker and ".." stay *)
+Example C09_key_spellings :
   norm_key [46;47;46;92;46;47;97] = [97] /\ norm_key [46;92] = [46] /\ norm_key [] = [46] /\
-  norm_key [100;92;46;47;97] = [100;47;46;47;97].
+  norm_key [100;92;46;47;97] = [100;47;97] /\ norm_key [97;47] = [97] /\
+  norm_key [100;47;47;97;47;46] = [100;47;97] /\ norm_key [47] = [47] /\ norm_key [47;97;47] = [47;97] /\
+  norm_key [46;46;47;97] = [46;46;47;97].
 Proof. vm_compute. repeat split; reflexivity. Qed.
-Print Assumptions C09_key_doubled_prefix.
+Print Assumptions C09_key_spellings.
